@@ -960,7 +960,7 @@ Proof.
     apply (c_reorder_get p nr (pget (a_r2i m)) (pget (a_i2r m))); try assumption. apply Hok. exact Hc.
 Qed.
 
-(* the code as found (before commit 2044b50d4): with more rows than columns the deferred reordering leaves the
+(* the code as found (before commit 6b7166ead): with more rows than columns the deferred reordering leaves the
    dictionaries half reset, and what is read changes although no operation happened *)
 Theorem order_rows_as_found_refuted :
   exists p nr m, let fl := {| f_heap_fix := true; f_lazy_fix := true; f_order_fix := false; f_ra := false |} in
